@@ -112,6 +112,26 @@ def run(ctx, repo, tier):
     if apc is None:
         raise AnalysisError("anchor vanished: AbstractVoronoi._additional_points_per_cell")
     ctx.analysed(apc)
+    # a cell's hull must see ALL helper points assigned to it: a slice of the per-cell selection thins (or truncates) them
+    sel_names = set()
+    thinned = None
+    for n in ast.walk(apc.node):
+        if isinstance(n, ast.Assign) and len(n.targets) == 1 and isinstance(n.targets[0], ast.Name) and isinstance(n.value, ast.Subscript) and \
+                "additional_points" in src(n.value.value) and any(isinstance(c, ast.Compare) for c in ast.walk(n.value.slice)):
+            sel_names.add(n.targets[0].id)
+    for n in ast.walk(apc.node):
+        if isinstance(n, ast.Subscript) and isinstance(n.slice, ast.Slice) and (n.slice.lower is not None or n.slice.upper is not None or n.slice.step is not None):
+            base = n.value
+            if (isinstance(base, ast.Name) and base.id in sel_names) or (isinstance(base, ast.Subscript) and "additional_points" in src(base.value)
+                                                                           and any(isinstance(c, ast.Compare) for c in ast.walk(base.slice))):
+                thinned = n
+    ctx.instance("SELECT")
+    if thinned is not None:
+        ctx.violate("SELECT", "C15.helpers.all", "only a slice of the helper points assigned to a cell reaches its hull: the hull (hence the volume "
+                    "estimate) of well-populated cells is built from a few points", apc.where, src(thinned)[:120],
+                    witness=f"slice {src(thinned.slice)} of the per-cell selection")
+    else:
+        ctx.ok("SELECT", "C15.helpers.all", "every helper point assigned to a cell is handed to that cell's hull (no slicing of the selection)", apc.where)
     interp2 = Interp(repo, VoroHooks())
     res = interp2.call_function(apc, [], {}, self_obj=o)
     ctx.instance("SELECT", 2)
